@@ -96,11 +96,14 @@ func parseBatch(c *core.Ctx, inputs [][]byte, tree bool) ([]*parseOut, []string)
 // cliParse judges one input through the real CLI.
 func cliParse(c *core.Ctx, in []byte) (acc bool, abn string, res *runner.Result) {
 	// all three input paths take turns (chosen by the input itself, so a replay takes the same path)
-	switch hashBytes(in) % 3 {
+	switch hashBytes(in) % 4 {
 	case 0:
 		res = run(c, in, "text", "parse")
 	case 1:
 		res = run(c, in, "text", "parse", "-")
+	case 2:
+		// FILE that is not a regular file: a pipe reached through its /dev name (no size, no seeking)
+		res = run(c, in, "text", "parse", "/dev/stdin")
 	default:
 		res = run(c, nil, "text", "parse", c.Scratch.File("c04.txt", in))
 	}
@@ -293,9 +296,9 @@ var tokenKinds = []string{"SYLLABLE", "SLASH", "LBRA", "RBRA", "COMMA", "SHARP",
 
 var lexemes = map[string][]string{
 	"SYLLABLE": {"C", "D", "E", "F", "G", "A", "B"}, "SLASH": {"/"}, "LBRA": {"["}, "RBRA": {"]"}, "COMMA": {","},
-	"SHARP": {"#", "♯"}, "FLAT": {"b", "♭"}, "NUMBER": {"1", "2", "4", "12", "07", "480", "3"},
-	"SYMBOL": {"m", "dim", "maj7", "aug", "sus4", "M7", "m7b5", "add9", "mM7"}, "REST": {"R"}, "UNDERSCORE": {"_"},
-	"LCBRA": {"{"}, "RCBRA": {"}"}, "EQUAL": {"="}, "METADATA": {"k", "key", "Am", "txt", "a b", "x;y", "120", "v w  x"},
+	"SHARP": {"#", "♯"}, "FLAT": {"b", "♭"}, "NUMBER": {"1", "2", "4", "12", "07", "480", "3", "18446744073709551615", "18446744073709551616", "000000000000000000000000000000000000009", "99999999999999999999999999999999999999999"},
+	"SYMBOL": {"m", "dim", "maj7", "aug", "sus4", "M7", "m7b5", "add9", "mM7", "m\u015b", "\u012f7", "\u043bad", "\u015f", "\u652f", "m\u00e9", "\u0394"}, "REST": {"R"}, "UNDERSCORE": {"_"},
+	"LCBRA": {"{"}, "RCBRA": {"}"}, "EQUAL": {"="}, "METADATA": {"k", "key", "Am", "txt", "a b", "x;y", "120", "v w  x", "\u015b\u043d", "k\u017d", "\u652f\u042f"},
 }
 
 var symbolsAfterUnderscore = []string{"7", "9", "6", "7sus4", "m7", "b5", "C", "R", "#x", "{z", "]q", "1,2"}
@@ -501,11 +504,34 @@ func checkC04(c *core.Ctx) {
 			b := []byte(randomChordText(r, 1+r.Intn(3), r.Intn(2) == 0))
 			for m := 0; m < 1+r.Intn(2); m++ {
 				pos := r.Intn(len(b) + 1)
-				b = append(b[:pos], append([]byte(inj[r.Intn(len(inj))]), b[pos:]...)...)
+				for !utf8.RuneStart(append(b, 'x')[pos]) {
+					pos--
+				}
+				what := inj[r.Intn(len(inj))]
+				if r.Intn(4) == 0 {
+					what = string(lowByteRune(r))
+				}
+				b = append(b[:pos], append([]byte(what), b[pos:]...)...)
 			}
 			mine = append(mine, b)
 		}
 		judgeParse(c, g, "inject", i, dedup(mine), true, "inject")
+	})
+	// runes that share their low byte (or their UTF-8 lead/continuation bytes) with a character of the
+	// language are ordinary runes: every significant ASCII character x five planes x the places a rune can stand
+	c.Stream("lowbyte", len(lowBytePlanes), func(i int, _ *rand.Rand) {
+		var mine [][]byte
+		for _, ch := range significantASCII {
+			ru := lowBytePlanes[i] + rune(ch)
+			if !utf8.ValidRune(ru) {
+				continue
+			}
+			x := string(ru)
+			for _, t := range []string{"C" + x + "[1]", "Cm" + x + "7/B[1]", "1" + x + "[1]", "C_" + x + "[1]", "C_7" + x + "[1]", "C[1] " + x + " D[", "R[2] " + x + "]]]", "C[1]" + x, x + "C[1]", "C[1" + x + "]", "C[1]{k" + x + "=v" + x + "}", "C[1]{" + x + "=" + x + "}", "C[1]{k=v" + x + ",l=w}", "C#" + x + "[1]", "C/" + x + "[1]", "C[1] ;" + x + "\nD[1]"} {
+				mine = append(mine, []byte(t))
+			}
+		}
+		judgeParse(c, g, "lowbyte", i, dedup(mine), true, "lowbyte")
 	})
 	// texts far beyond any buffer size (1 MiB and more, mostly comments and blank lines, which are cheap to
 	// write but still have to be read): nothing behind the padding may be dropped or invented
@@ -702,4 +728,19 @@ func regenerateParser(c *core.Ctx) {
 	}
 	c.Count("goyacc_bytes_compared", len(gen))
 	c.Nontrivial("goyacc-regeneration")
+}
+
+// significantASCII lists the ASCII characters the chord language gives a meaning to.
+var significantASCII = []byte("/[]_;={},#b \t\n\r0123456789RABCDEFG")
+
+// lowBytePlanes are code point bases: base+ch keeps ch as low byte.
+var lowBytePlanes = []rune{0x0100, 0x0400, 0x1E00, 0x6500, 0x1F600, 0x0200, 0x3000}
+
+func lowByteRune(r *rand.Rand) rune {
+	for {
+		ru := lowBytePlanes[r.Intn(len(lowBytePlanes))] + rune(significantASCII[r.Intn(len(significantASCII))])
+		if utf8.ValidRune(ru) {
+			return ru
+		}
+	}
 }
